@@ -310,10 +310,22 @@ func special(form apd.Form, neg bool) *apd.Decimal {
 	return &apd.Decimal{Form: form, Negative: neg}
 }
 
+// garbageInf is an infinity whose unused Coeff/Exponent fields are not zero, as produced by an
+// operation that overflowed.
+func (g *gen) garbageInf() *apd.Decimal {
+	d := apd.New(int64(1+g.r.Intn(999999)), int32(g.r.Intn(4001)-2000))
+	d.Form = apd.Infinite
+	d.Negative = g.r.Intn(2) == 0
+	return d
+}
+
 // decimal generates any well-formed decimal (mostly finite).
 func (g *gen) decimal(c *apd.Context, extreme bool) *apd.Decimal {
 	switch g.r.Intn(40) {
 	case 0:
+		if g.r.Intn(3) == 0 {
+			return g.garbageInf()
+		}
 		return special(apd.Infinite, g.r.Intn(2) == 0)
 	case 1:
 		return special(apd.NaN, g.r.Intn(2) == 0)
